@@ -492,7 +492,7 @@ PROPS["C16"] = {
         Leg("midnight", "c16", "^TestMidnight$", engine="process", app=["rtcmlogger"], checks=(1, 3), shards=(2, 4), tests=["midnight"], replay_attempts=2),
         Leg("record-stall", "c16b", "^TestRecordStall$", engine="sched", checks=(2, 6), shards=(3, 6), tests=["record-stall"], optional_build=True, replay_attempts=2),
         Leg("run-instrumented", "c16", "^TestRun$", engine="process+sched", app=["rtcmlogger"], instrument=["apps/rtcmlogger/main.go"],
-            env={"VERIF_INSTRUMENTED": "1"}, checks=(8, 1500), shards=(16, 16), tests=["run"], replay_attempts=20),
+            env={"VERIF_INSTRUMENTED": "1"}, checks=(20, 1500), shards=(16, 16), tests=["run"], replay_attempts=20),
     ],
 }
 
